@@ -72,6 +72,8 @@ class Pair(Config):
 class Floats(Config):
     __xpmid__ = "xv.floats"
 
+    where: Meta[Optional[Path]]
+    wheres: Meta[Dict[str, Path]] = {}
     f: Param[float]
     g: Param[float] = 0.5
     n: Param[int] = 1
